@@ -21,7 +21,7 @@ from ..symnp import affine as af
 from ..symnp import kindl
 
 PID = "C07"
-FACTORS = [1e-3, 0.5, 3.0, 1e3]
+FACTORS = [1e-5, 1e-3, 0.5, 3.0, 1e3, 1e5]
 
 
 def keep_mask(n, nl):
@@ -111,14 +111,30 @@ def body(run, sym, sc):
                 run.cex.append(dict(scenario=scn, obligation=nm))
     # (b) similarity with the scenario's own halo
     g, c, f = kindl.sym_solve(sym, sc, q, srf_bg_conc=bg, zprof=(z, prof))
+    mp = (i0 * dx, j0 * dy)
+    g, cm, fm = kindl.sym_solve(sym, sc, q, srf_bg_conc=bg, zprof=(z, prof), meas_pt=mp)
+    g, cq, fq = kindl.sym_solve(sym, sc, q, footprint=True, zprof=(z, prof), meas_pt=mp)
     u, v, Kx, Ky, Kz = prof
     for s in FACTORS:
         h = None if sc["halo"] is None else sc["halo"] * s
         sc1 = dict(sc, dx=dx * s, dy=dy * s, halo=h)
-        g, c1, f1 = kindl.sym_solve(sym, sc1, q, srf_bg_conc=bg, zprof=(z * s, (u, v, Kx * s, Ky * s, Kz * s)))
+        zp1 = (z * s, (u, v, Kx * s, Ky * s, Kz * s))
+        g, c1, f1 = kindl.sym_solve(sym, sc1, q, srf_bg_conc=bg, zprof=zp1)
         scn = dict(sc, part="b-lengths", factor=s)
         rec("similarity_lengths_flux", scn, kindl.forms_equal(run, sp, f1, f, "similarity_lengths_flux", scn))
         rec("similarity_lengths_conc", scn, kindl.forms_equal(run, sp, c1, c, "similarity_lengths_conc", scn))
+        # the measurement point is a length too: re-centred dispersion and footprint mode
+        mps = (mp[0] * s, mp[1] * s)
+        g, c3, f3 = kindl.sym_solve(sym, sc1, q, srf_bg_conc=bg, zprof=zp1, meas_pt=mps)
+        scn = dict(sc, part="b-lengths-recentred", factor=s, point=[i0, j0])
+        rec("similarity_lengths_flux", scn, kindl.forms_equal(run, sp, f3, fm, "similarity_lengths_flux", scn))
+        rec("similarity_lengths_conc", scn, kindl.forms_equal(run, sp, c3, cm, "similarity_lengths_conc", scn))
+        g, c4, f4 = kindl.sym_solve(sym, sc1, q, footprint=True, zprof=zp1, meas_pt=mps)
+        scn = dict(sc, part="b-lengths-footprint", factor=s, point=[i0, j0])
+        for nm, a, b in (("similarity_lengths_flux", f4, fq), ("similarity_lengths_conc", c4, cq)):
+            vals = kindl.forms_equal(run, sp, a, b, nm, scn)
+            if vals is not None:
+                run.cex.append(dict(scenario=scn, obligation=nm))
         g, c2, f2 = kindl.sym_solve(sym, sc, q, srf_bg_conc=bg * (1.0 / s), zprof=(z, (u * s, v * s, Kx * s, Ky * s, Kz * s)))
         scn = dict(sc, part="b-speeds", factor=s)
         rec("similarity_speeds_flux", scn, kindl.forms_equal(run, sp, f2, f, "similarity_speeds_flux", scn))
@@ -153,7 +169,14 @@ def replay(rec):
         g, c, f = kindl.real_solve(sc, q, srf_bg_conc=bg, zprof=(z, prof))
         if "lengths" in ob:
             h = None if sc["halo"] is None else sc["halo"] * s
-            g, c1, f1 = kindl.real_solve(dict(sc, dx=dx * s, dy=dy * s, halo=h), q, srf_bg_conc=bg, zprof=(z * s, (u, v, Kx * s, Ky * s, Kz * s)))
+            kw0, kw1 = dict(srf_bg_conc=bg), dict(srf_bg_conc=bg)
+            if "point" in sc:
+                mp = (sc["point"][0] * dx, sc["point"][1] * dy)
+                fpm = sc.get("part", "").endswith("footprint")
+                kw0 = dict(meas_pt=mp, footprint=fpm, srf_bg_conc=bg)
+                kw1 = dict(meas_pt=(mp[0] * s, mp[1] * s), footprint=fpm, srf_bg_conc=bg)
+                g, c, f = kindl.real_solve(sc, q, zprof=(z, prof), **kw0)
+            g, c1, f1 = kindl.real_solve(dict(sc, dx=dx * s, dy=dy * s, halo=h), q, zprof=(z * s, (u, v, Kx * s, Ky * s, Kz * s)), **kw1)
             worst = max(kindl.rel_err(f1, f), kindl.rel_err(np.asarray(c1) - bg, np.asarray(c) - bg))
         else:
             g, c2, f2 = kindl.real_solve(sc, q, srf_bg_conc=bg / s, zprof=(z, (u * s, v * s, Kx * s, Ky * s, Kz * s)))
@@ -191,6 +214,7 @@ CANARIES = [
     ("top_bc_v_with_Lx", {"solver": [("1j * v[nz - 1] * Kzinv * Ly[msk]", "1j * v[nz - 1] * Kzinv * Lx[msk]")]}),
     ("recentre_uses_xmx_for_y", {"solver": [("Ly * (ym - ymx / 2)", "Ly * (ym - xmx / 2)")]}),
     ("dy_from_xmx", {"solver": [("dx, dy = xmx / nx, ymx / ny", "dx, dy = xmx / nx, xmx / ny")]}),
+    ("absolute_length_threshold_in_recentring", {"solver": [("elif xm**2 + ym**2 > 0.0:", "elif xm**2 + ym**2 > 1e-6:")]}),
     ("absolute_length_in_top_bc", {"solver": [("+ KyKzinv * Ly[msk] ** 2", "+ KyKzinv * Ly[msk] ** 2 + 1e-4")]}),
 ]
 
